@@ -3,3 +3,4 @@ import InToto.Properties.C20
 #print axioms InToto.C20.produced_name_is_loaded
 #print axioms InToto.C20.other_names_not_loaded
 #print axioms InToto.C20.facts_name_formats
+#print axioms InToto.C20.facts_cli_argument_binding
